@@ -756,6 +756,19 @@ fn run_case(sink: &mut Sink, c: &Case, verbose: bool) {
         clist(plugin_reqs(c).iter().map(|(p, a)| cpair(&cnu(*p), cbool(*a)))),
         users_term(c)
     );
+    // the plugin set-up sequence over the POS table (Model/LexSet.v setup): providers' requests, then the POS the path-rewrite
+    // plugins name; compared with whether the configuration loads over the system dictionary alone
+    let rw_pos: Vec<usize> = c.rewrite.iter().map(|k| if *k == 0 { NUM_POS } else { c.join_pos.unwrap_or(c.sys[0].pos) }).collect();
+    let setup_term = |base_loaded: bool| -> String {
+        format!(
+            "check_setup {} {} {} {} {}",
+            clist(sys_reqs.iter().map(|p| cnu(*p))),
+            clist(sys_idx.iter().map(|i| format!("{}%nat", i))),
+            clist(plugin_reqs(c).iter().map(|(p, a)| cpair(&cnu(*p), cbool(*a)))),
+            clist(rw_pos.iter().map(|p| cnu(*p))),
+            cbool(base_loaded)
+        )
+    };
     sink.tag(&format!("users={}", c.users.len()));
     sink.tag(&format!("plugin_registered_pos={}", plugin_new));
     if base.is_err() {
@@ -770,14 +783,14 @@ fn run_case(sink: &mut Sink, c: &Case, verbose: bool) {
             fail(format!("loading a configuration whose plugin forbids an unknown POS panicked: {}", e), "");
         }
         sink.tag("config_rejected_forbidden_pos");
-        let id = sink.case(format!("check_case_c12 {} false [] []", head), d, false);
+        let id = sink.case(format!("andb ({}) (check_case_c12 {} false [] [])", setup_term(false), head), d, false);
         if let Some((w, cl)) = bad.into_inner() {
             sink.fail(id, &w, &cl);
         }
         return;
     }
     if !cfg_ok {
-        let id = sink.case(format!("check_case_c12 {} true [] []", head), d, false);
+        let id = sink.case(format!("andb ({}) (check_case_c12 {} true [] [])", setup_term(true), head), d, false);
         sink.fail(id, &format!("a provider asked for a POS the system dictionary lacks without permission to register it ({}) and the configuration loaded", refused), "");
         return;
     }
@@ -1240,7 +1253,7 @@ fn run_case(sink: &mut Sink, c: &Case, verbose: bool) {
         Ok(Err(e)) => fail(format!("tokenizing {:?} failed: {}", text, e), ""),
         Err(p) => fail(format!("tokenizing {:?} panicked: {}", text, p), ""),
     }
-    let term = format!("check_case_c12r {} {} {} {} {} {} {}", head, cbool(loaded_ok), clist(obs), clist(mobs), clist(merged), clist(c.sys.iter().map(key_term)), clist(res_dicts));
+    let term = format!("andb ({}) (check_case_c12r {} {} {} {} {} {} {})", setup_term(true), head, cbool(loaded_ok), clist(obs), clist(mobs), clist(merged), clist(c.sys.iter().map(key_term)), clist(res_dicts)).replacen("))", "))", 1);
     let id = sink.case(term, d, nontrivial);
     if let Some((w, cl)) = bad.into_inner() {
         if verbose {
